@@ -128,7 +128,7 @@ def main():
         tried += 1
         sg = [(1, 1), (1, -1), (-1, 1), (-1, -1)][tried % 4]
         try:
-            cfg, q = gen_admissible(rng, qh=(tried % 3 == 0), order='r1', signs=sg, asym=(tried % 2 == 0), nphi=int(2 * rng.integers(20, 45) + 1))
+            cfg, q = gen_admissible(rng, qh=(tried % 3 == 0), order=['r1', 'r3', 'r1', 'r2'][tried % 4], signs=sg, asym=(tried % 2 == 0), nphi=int(2 * rng.integers(20, 45) + 1))
         except RuntimeError:
             continue
         key = '%s/%s/sG%+d/nfp%d' % ('QH' if q.helicity else 'QA', 'asym' if q.lasym else 'sym', cfg['sG'], cfg['nfp'])
